@@ -36,5 +36,24 @@ mkdir -p /verif/seeded/$ID
 cp "$DIFF" /verif/seeded/$ID/patch.diff
 cp "$DEMO" /verif/seeded/$ID/demo_test.go
 [ -f $OUT/mut$N.md ] && cp $OUT/mut$N.md /verif/seeded/$ID/notes.md
+python3 - "$ID" "$detected" "$missed" "$*" <<'PY'
+import json,sys,os,re
+sid,det,miss,props=sys.argv[1:5]
+d='/verif/seeded/'+sid
+notes=open(d+'/notes.md').read() if os.path.exists(d+'/notes.md') else ''
+needs=''
+m=re.search(r'(?is)(needs|manifest|trigger)[^\n]*\n?(.{0,600})',notes)
+meta={
+ "seed_id": sid,
+ "breaks_property": sid.split('-')[0],
+ "source": "written by an independent sub-agent that saw only the property text and a scratch worktree",
+ "needs_to_manifest": "see notes.md (author's own description)",
+ "confirmed": "applied in a scratch worktree of /repo HEAD: go build ok, full test suite passes with the change, the demonstration test fails with the change and passes without it",
+ "checks_run": [f"symgo check {p} quick --repo <scratch worktree with the change applied>" for p in props.split()],
+ "detected_by": det.split(),
+ "missed_by": miss.split(),
+}
+json.dump(meta,open(d+'/meta.json','w'),indent=1)
+PY
 echo "RESULT $ID confirmed detected=[$detected ] missed=[$missed ]"
 for P in "$@"; do grep -m3 "VIOLATION\|assertion=" /tmp/seedwt/$ID.$P.log | cut -c1-250; done
